@@ -226,6 +226,7 @@ ssize_t zck_get_chunk_data(zckChunk *idx, char *dst, size_t dst_size)
 V_REQUIRES(idx != NULL && __CPROVER_rw_ok(idx, sizeof(*idx)) && idx->zck != NULL && __CPROVER_rw_ok(idx->zck, sizeof(zckCtx)))
 V_REQUIRES_WF((idx == g_n1 || idx == g_n2 || idx == g_n3) && g_n1 != NULL && idx->zck == g_n1->zck)
 V_REQUIRES_WF(RD_WF(g_n1->zck))
+V_REQUIRES(GCD_Z(idx)->mode == ZCK_MODE_READ)   /* the property is about contexts opened for reading (a writer context is refused by comp_read) */
 V_REQUIRES(RD_CTL(GCD_Z(idx)) && RD_API(GCD_Z(idx)))
 V_REQUIRES(dst == NULL || dst_size == 0 || __CPROVER_w_ok(dst, dst_size))
 V_ASSIGNS(GCD_Z(idx)->comp, GCD_Z(idx)->check_chunk_hash.type, GCD_Z(idx)->check_chunk_hash.ctx, GCD_Z(idx)->error_state, g_hu_total, g_hu_seen, g_hu_ptr, g_hu_final, g_hu_inits, g_fin_val, g_fin_total, g_fin_seen, g_fin_ptr, g_fpos, g_rd_bytes, g_io_failed, g_last_read, g_watch_seen, g_watch_val; dst != NULL && dst_size > 0: __CPROVER_object_upto(dst, dst_size); RD_VALID_TARGETS(zck))
